@@ -27,6 +27,32 @@ def has(og, pat):
     return any(glob_match(pat, o) or (pat[-1] != '*' and glob_match(pat + '.*', o)) for o in og)
 
 
+def _same_site(body, operand, call, depth=8):
+    """the operand derives (through adapters / Try::branch) from THIS call's destination"""
+    seen = set()
+    work = [operand]
+    while work and depth:
+        depth -= 1
+        o = work.pop()
+        if o[0] not in ('copy', 'move'):
+            continue
+        l = o[1][0]
+        if l in seen:
+            continue
+        seen.add(l)
+        if l == call.dest[0]:
+            return True
+        for (bi, si, pl, rv) in body.defs(l):
+            if si == 't':
+                if not isinstance(rv, tuple) and rv.args:
+                    work.append(rv.args[0])
+            elif rv[0] in ('use',):
+                work.append(rv[1])
+            elif rv[0] in ('ref', 'cfd', 'discr'):
+                work.append(('copy', rv[1]))
+    return False
+
+
 def run(ctx):
     R = ctx.report
     R.clause('a', 'an invalid single signature is skipped, never fatal')
@@ -37,42 +63,60 @@ def run(ctx):
     f = ctx.try_fn('a', SELECT)
     if f is not None:
         body = f.body
-        sites = [c for c in body.calls() if any(glob_match(SVERIFY, n) for n in c.names())]
         inst = 'select_valid_signatures_for_k_indices: failure of the per-signature verify => continue'
-        if not sites:
+        # (a1) layout independent: wherever the per-signature verification is called under the selection routine, its error is
+        # never propagated (`?`, tail return of the Result) - a bad signature costs that signature, not the aggregation
+        all_sites = ctx.closure_sites(SELECT, [SVERIFY])
+        if not all_sites:
             R.violation('a', 'R1', inst, 'select:skip-invalid:vacuous', 'no per-signature verification call found', f.loc())
+        else:
+            prop = []
+            for g, c in all_sites:
+                gb = g.body
+                # `?` on the result (possibly through adapters): a from_residual whose argument derives from this call
+                for c2 in gb.calls():
+                    if any(n.endswith('::from_residual') for n in c2.names()) and c2.args:
+                        if ('call:' + c.best()) in fn_origins(g, c2.args[0], 'adapters') and _same_site(gb, c2.args[0], c):
+                            prop.append('%s line %d: `?` on the verification result' % (fn_short(g.name), c.line))
+                # returned as the function's own Result
+                from engine import ty_class
+                tr = track_result(gb, c.dest[0], +1)
+                if tr.returned and ty_class(g.ret) == 'result':
+                    prop.append('%s line %d: the verification result is returned as the function\'s result' % (fn_short(g.name), c.line))
+            if prop:
+                R.violation('a', 'R1', inst, 'select:skip-invalid', '; '.join(prop[:3]), f.loc())
+            else:
+                R.ok('a', 'R1', inst, '%d verification site(s); the error is consumed where it arises' % len(all_sites), f.loc())
+        sites = [c for c in body.calls() if any(glob_match(SVERIFY, n) for n in c.names())]
+        inst2 = 'select_valid_signatures_for_k_indices: only verified signatures enter the index map'
+        if not sites and all_sites:
+            # the verification sits in a closure / helper (e.g. `.filter(|s| verify(s).is_ok())`): the bookkeeping must consume
+            # the filtered sequence
+            filt = []
+            for h in f.family():
+                for c in h.body.calls():
+                    if any(n.endswith(('::filter', '::filter_map', '::take_while')) for n in c.names()):
+                        from engine import closure_args
+                        for cn in closure_args(h.body, c):
+                            for cl in f.family():
+                                if getattr(cl, '_orig', cl).name == cn and ctx.mpt.enforces(getattr(cl, '_orig', cl), Sink('verify', [SVERIFY], 'ok'), 'true').holds:
+                                    filt.append(c)
+            ins = [c for c in body.calls() if any(glob_match('std::collections::btree::map::BTreeMap::insert', n) or glob_match('std::collections::btree::map::BTreeMap::entry', n) for n in c.names())]
+            if filt:
+                R.ok('a', 'R2', inst2, 'the items pass a verifying filter (line %s) before the bookkeeping' % [c.line for c in filt], f.loc())
+            else:
+                R.info('a', 'the shape of the selection (verification outside the loop body, no verifying filter recognised) is not decided by this rule')
         for c in sites:
             tr = track_result(body, c.dest[0], +1)
-            hdr = loop_body_entry(body, c.bb)
-            if not tr.fail_edges or hdr is None:
-                R.violation('a', 'R1', inst, 'select:skip-invalid', 'the verification result is not branched on inside '
-                            'the loop over the signatures (escapes: %s)' % tr.escapes[:3], '%s:%d' % (f.file, c.line))
-                continue
-            # loop header = the block of the next() call feeding this loop
-            hdr_blocks = {cc.bb for cc in body.calls() if any(glob_match('*Iterator*::next', n) for n in cc.names())}
-            fail_targets = [b for _, b in tr.fail_edges]
-            reach = body.reach(fail_targets, stop=hdr_blocks)
-            _, failret = return_assigns(body, 'ok')
-            bad_ret = [b for b in reach if b in failret or body.blocks[b].term[0] == 'ret']
-            back = any(h in reach for h in hdr_blocks)
-            if bad_ret or not back:
-                R.violation('a', 'R1', inst, 'select:skip-invalid',
-                            'from the failure arm of verify (line %d): failure return blocks %s, loop header reached: %s'
-                            % (c.line, bad_ret, back), '%s:%d' % (f.file, c.line))
-            else:
-                R.ok('a', 'R1', inst, 'failure arm bb%s reaches the loop header without a return' % fail_targets, '%s:%d' % (f.file, c.line))
             # and the success arm is the only way to the bookkeeping
-            ok_targets = [b for _, b in tr.success_edges]
-            uses = [cc for cc in body.calls() if any(glob_match('std::collections::btree::map::BTreeMap::insert', n) for n in cc.names())]
+            uses = [cc for cc in body.calls() if any(glob_match('std::collections::btree::map::BTreeMap::insert', n) or glob_match('std::collections::btree::map::BTreeMap::entry', n) for n in cc.names())]
             reach2 = body.reach([0], removed=tr.success_edges)
             bad = [cc for cc in uses if cc.bb in reach2]
             if bad or not uses:
-                R.violation('a', 'R2', 'select_valid_signatures_for_k_indices: only verified signatures enter the index map',
-                            'select:verified-before-insert', 'BTreeMap::insert at line %s reachable without a successful verify'
+                R.violation('a', 'R2', inst2, 'select:verified-before-insert', 'index map update at line %s reachable without a successful verify'
                             % [cc.line for cc in bad], f.loc())
             else:
-                R.ok('a', 'R2', 'select_valid_signatures_for_k_indices: only verified signatures enter the index map',
-                     '%d insert site(s)' % len(uses), f.loc())
+                R.ok('a', 'R2', inst2, '%d update site(s)' % len(uses), f.loc())
         # arguments of the per-signature verification
         ctx.arg_origin('a', SELECT, SVERIFY, 2, require=['p#3', 'call:*get_verification_key_for_concatenation'], desc='(vk) <- sig.reg_party')
         ctx.arg_origin('a', SELECT, SVERIFY, 3, require=['p#3', 'call:*::get_stake'], desc='(stake) <- sig.reg_party')
